@@ -110,6 +110,13 @@ def mk_asset(a, pool, tz=None):
         inner = [mk_asset(b, pool, tz) for b in a['assets']]
         return StructuredAsset(portfolio=Portfolio(inner), name=a['name'],
                                nodes=mk_nodes(a['nodes'], pool), **kw)
+    if kind == 'LinkedAsset':
+        inner = [mk_asset(b, pool, tz) for b in a['assets']]
+        lk = a['link']
+        return LinkedAsset(portfolio=Portfolio(inner), name=a['name'], nodes=mk_nodes(a['nodes'], pool),
+                           asset1_variable=(lk['a1'], lk['v1'], lk.get('n1')), asset2_variable=(lk['a2'], lk['v2'], lk.get('n2')),
+                           asset2_time_already_running=lk.get('already', 'time_already_running'),
+                           time_back=lk.get('time_back', 1), time_forward=lk.get('time_forward', 0), **kw)
     if kind == 'OrderBook':
         o = a['orders']
         def lz(v):     # orders are compared with the grid points directly
